@@ -495,6 +495,9 @@ def holospectrum(infr, infr2, inam2, freq_edges, freq_edges2, mode='energy',
                                                                           freq_edges2[-1],
                                                                           len(freq_edges2)))
 
+    # Accumulate in floating point whatever the storage type of the amplitudes
+    inam2 = inam2.astype(float)
+
     if mode == 'energy':
         inam2 = inam2**2
 
@@ -594,6 +597,9 @@ def hilberthuang(infr, inam, freq_edges, mode='energy', return_sparse=False):
                                                              freq_edges[-1],
                                                              len(freq_edges)))
 
+    # Accumulate in floating point whatever the storage type of the amplitudes
+    inam = inam.astype(float)
+
     if mode == 'energy':
         inam = inam**2
 
@@ -658,6 +664,9 @@ def hilberthuang_1d(infr, inam, freq_edges, mode='energy'):
     infr[outside_inds] = np.nan
 
     finds = np.digitize(infr, freq_edges)
+
+    # Accumulate in floating point whatever the storage type of the amplitudes
+    inam = inam.astype(float)
 
     for ii in range(1, len(freq_edges)):
         for jj in range(infr.shape[1]):
